@@ -83,16 +83,17 @@ class chunks(object):
             # Get raBounds array for this declination array, leave an extra
             # cell on each end
             #
-            self.nRa.append(3 + int(np.floor(cosDecMin*self.raRange/minSize)))
-            raRangeTmp = minSize*float(self.nRa[i])/cosDecMin
+            raSize = self.rawidth(minSize, cosDecMin)
+            self.nRa.append(3 + int(np.floor(self.raRange/raSize)))
+            raRangeTmp = raSize*float(self.nRa[i])
             raMinTmp = self.raMin - 0.5*(raRangeTmp-self.raMax+self.raMin)
             raMaxTmp = raMinTmp + raRangeTmp
             #
             # If we cannot avoid the 0/360 point, embrace it
             #
             if (raRangeTmp >= 360.0 or
-                    raMinTmp <= minSize/cosDecMin or
-                    raMaxTmp >= 360.0 - minSize/cosDecMin or
+                    raMinTmp <= raSize or
+                    raMaxTmp >= 360.0 - raSize or
                     abs(self.decBounds[i]) == 90.0):
                 raMinTmp = 0.0
                 raMaxTmp = 360.0
@@ -147,6 +148,20 @@ class chunks(object):
             return np.cos(np.deg2rad(self.decBounds[i]))
         else:
             return np.cos(np.deg2rad(self.decBounds[i+1]))
+
+    def rawidth(self, size, cosDecMin):
+        """Largest difference in RA (degrees) between two points separated
+        by less than `size` degrees, one of which has cos(dec) >= `cosDecMin`.
+
+        A circle of angular radius `size` centered at declination dec spans
+        asin(sin(size)/cos(dec)) in RA on either side, and all RA if it
+        contains the pole.  The flat-sky value size/cos(dec) is smaller than
+        that, noticeably so at high declination.
+        """
+        sinSize = np.sin(np.deg2rad(size))
+        if size < 90.0 and sinSize < cosDecMin:
+            return np.rad2deg(np.arcsin(sinSize/cosDecMin))
+        return 360.0
 
     def assign(self, ra, dec, marginSize):
         """Take the objects and the chunks (already defined in the constructor)
@@ -222,7 +237,7 @@ class chunks(object):
         raChunkMin = np.zeros(decChunkMax-decChunkMin+1, dtype='i4')
         raChunkMax = np.zeros(decChunkMax-decChunkMin+1, dtype='i4')
         for i in range(decChunkMin, decChunkMax+1):
-            cosDecMin = self.cosDecMin(i)
+            raMargin = self.rawidth(marginSize, self.cosDecMin(i))
             raChunkMin[i-decChunkMin] = int(np.floor((ra - self.raBounds[i][0]) *
                                                      float(self.nRa[i]) /
                                                      (self.raBounds[i][self.nRa[i]] - self.raBounds[i][0])))
@@ -236,7 +251,7 @@ class chunks(object):
             keepGoing = True
             while keepGoing and raCheck > -1:
                 if raCheck >= 0 and raCheck < self.nRa[i]:
-                    keepGoing = (ra - self.raBounds[i][raCheck])*cosDecMin < marginSize
+                    keepGoing = (ra - self.raBounds[i][raCheck]) < raMargin
                 else:
                     keepGoing = False
                 if keepGoing:
@@ -246,7 +261,7 @@ class chunks(object):
             keepGoing = True
             while keepGoing and raCheck < self.nRa[i]:
                 if raCheck >= 0 and raCheck < self.nRa[i]:
-                    keepGoing = (self.raBounds[i][raCheck+1]-ra)*cosDecMin < marginSize
+                    keepGoing = (self.raBounds[i][raCheck+1]-ra) < raMargin
                 else:
                     keepGoing = False
                 if keepGoing:
